@@ -113,3 +113,39 @@ CLAIMS['C10']['text'] = ('FULL for the order part of P8E0 and P16E1, symbolic fo
     '(2) Props/C10Mono.lean: the signed-integer order of patterns IS the order of the represented reals for P8E0 and P16E1 (successor sweep over all 2^8 / 2^16 patterns by native_decide, lifted to all pairs by induction + transitivity); NaR is the bottom and has no value. '
     '(3) exhaustive Spec theorems for all P8E0 pairs / P16E1 unary (Props/C10Fin.lean). PARTIAL: monotonicity of the 32-bit formats (needs a 2^31-step sweep or the closed-form proof); copysign and classify only on the finite spaces; explored for all 31 PxE widths.')
 CLAIMS['C10']['technique'] = 'Lean 4 symbolic theorems (all operand pairs, no enumeration) + successor-sweep monotonicity with inductive lift + native_decide exhaustive theorems; differential correspondence'
+
+
+# ---- updates after the second half of the build round
+CLAIMS['C03']['text'] = (_FIN + 'Here: to_f64/to_f32, the From<P> for f32/f64 spellings and the round trip From<f64>(f64::from(p)) = p for all P8E0 and P16E1 patterns '
+    '(native_decide; in the thorough tier the P8E0 ones again by kernel evaluation only). ' + _WIDE +
+    ' For P32E2 the streams contain target-format boundary sources (midpoints between adjacent f32 values with carry-rippling mantissas) and the extreme regimes; '
+    'the Display/FromStr leg runs the real code (x.to_string().parse()) and is modelled as the f64 round trip (std print/parse contract assumed).')
+CLAIMS['C04']['text'] += (' ADDED: Q16E1 is factored the same way for all 2^128 states (q16_fdp_factor, q16_fdp_one_factor, 128-bit wrap-around lemma); '
+    'q16_step_one / q16_history_singles are unconditional (single-posit accumulations), q16_step / q16_history hold under the explicit hypothesis Delta16Prod '
+    '(the 2^33-entry product table: not discharged in any tier - PARTIAL). C12.q8_history_rounds_partial: for Q8E0, after any history with |final sum| < 32768, to_posit is the exact sum rounded once.')
+CLAIMS['C06']['text'] += (' For P32E2 every run additionally evaluates the 10^6 hardest-to-round inputs of all 2^31 positive patterns (exact integer search by a crate-independent tool in the harness: '
+    'inputs whose exact root lies within 2.3e-4 ulp of a rounding boundary).')
+CLAIMS['C12']['text'] = ('Theorems: to_posit(from_posit p) = p for every P8E0 and P16E1 pattern; neg is twos-complement negation of the whole accumulator for EVERY Q8E0/Q16E1 state; clear gives zero from every state; '
+    'q8_to_posit_small: to_posit of EVERY Q8E0 state with |value| < 32768 (2^28 states, 128 native_decide shards) is the posit rounding of its exact value; '
+    'q8_into_two / q8_into_three: for every Q8E0 state with |value| < 31982 the residual split is p1 = round(s), p2 = round(s - p1), p3 = round(s - p1 - p2) with exact subtractions (symbolic, from the step theorem and the sweep). '
+    'PARTIAL: the remaining Q8E0 states (all saturate), Q16E1/Q32E2 to_posit on arbitrary states and their residual splits are checked on reachable states by the history correspondence against the exact-rational Spec.')
+CLAIMS['C13']['text'] = ('The generated model takes the width N as an argument, so one definition serves every width. Theorems (native_decide, complete operand spaces): PxE2<N> and PxE1<N> +, -, *, / for every N in 2..=8 and all pairs of N-bit operands; '
+    'round for every N in 2..=12 (both), sqrt N in 2..=12 (PxE2); PxE2 mul_add, mul_sub, sub_product for N in 2..=5 and all triples: the model returns normally the exact result rounded to an N-bit posit, left-aligned (low 32-N bits zero). '
+    'PARTIAL: larger widths and the PxE2<32> = P32E2 / PxE1<16> = P16E1 agreements are covered by correspondence + oracle (all 31 widths, both exponent sizes, ulp-scale and tie-targeted operands). '
+    'Twenty-odd genuine defects of the generic-width code were repaired (fix: commits, known_findings.json); the PxE1 fused family is an open finding by call site and printed as KNOWN-FINDING; any failure at another call site is a VIOLATION.')
+CLAIMS['C14']['text'] = ('Theorems (native_decide, complete source spaces) on the width-parametric model, PxE1 and PxE2: to_p32e2 and to_f64 exact for every N in 2..=14 and all N-bit patterns; to_p8e0 and to_p16e1 (both spellings) for every N in 2..=16; '
+    'from_p8e0 (all 256 sources) and from_p16e1 (all 65536 sources) for every N in 2..=32: the source value rounded to an N-bit posit, left-aligned, zero/NaR preserved. '
+    'PARTIAL: float and integer sources/targets and N > 16 narrowing for all 31 widths by correspondence + oracle with target-boundary sources; Q32E2 -> PxE2<N> (From<&Q32E2>, From<Q32E2>, Quire::to_posit) after quire histories with PxE2 operands '
+    'against the exact-sum oracle (hand model pinned by source hash); generic-to-generic (M,N) pairs are NOT covered. Open findings by call site: from-integer conversions of PxE1, PxE2::from_i64 / from_i32.')
+CLAIMS['C15']['text'] += (' ADDED: theorem C15.pi_split_close (the regenerated constants PI_A + PI_B + PI_C are within 2e-20 of Real.pi; kernel evaluation + Mathlib pi bounds); the streams contain the 3000 worst-case '
+    'argument-reduction inputs (all ~250000 multiples of pi/2 scanned) and a sign-logic / special-case stream for powf outside the box [0.5,5)^2 (gross correctness only there). Open finding POWF-6ULP (5 pairs in 13.5 million at 6 ulp).')
+CLAIMS['C17']['text'] = ('220 symbolic forwarding theorems (Props/C17Fwd.lean, no enumeration, axioms propext/Quot.sound): every operator trait, op-assign form, From/Into impl, num_traits Float/Signed/ToPrimitive/FromPrimitive method and every Quire trait method '
+    '(Q8E0, Q16E1, Q32E2 for P32E2 and for PxE2<N>) equals the inherent operation for EVERY input / quire state. ' + _FIN +
+    'Here: the num_traits Signed/Zero/One/Float spellings and the op-assign forms against the Spec of the inherent operation. ' + _WIDE +
+    ' A pairwise agreement stream compares spelled and inherent operations on identical inputs. NumCast::from<N> and from_str_radix are not modelled (foreign generics / parsing).')
+CLAIMS['C17']['technique'] = 'Lean 4 symbolic forwarding theorems (every input) + native_decide exhaustive theorems on generated model + spelled-vs-inherent agreement run'
+CLAIMS['C18']['text'] = ('FULL for P8E0: for every x and every coefficient array (all bit patterns, NaR included; up to 2^160 inputs, proved symbolically) x.poly1 .. x.poly18, poly3a and poly4a return normally Spec.poly / poly3a / poly4a: '
+    'the documented staging of single-rounded exact fused dot products of the coefficients with the individually rounded powers x, x*x, x2*x, x2*x2 (Props/C18Q8.lean, C18Q8Hi.lean). '
+    'Built from C18.fdp_run (accumulating ANY list of <= 7 operand pairs into a cleared Q8E0 and converting back equals Spec.fdp), which composes the all-histories theorem C04.q8_history, the to_posit sweep over 2^28 quire states and 256-case operand facts. '
+    'PARTIAL: P16E1 and P32E2 (no proof of Q16E1/Q32E2 to_posit) are covered by correspondence and the oracle Spec.poly on structured inputs incl. cancellation and NaR/zero coefficients, all 20 forms.')
+CLAIMS['C18']['technique'] = 'Lean 4 symbolic end-to-end theorems (history induction + native_decide read-out sweep + rational algebra, generated stage compositions) on generated model; differential correspondence against exact-rational staged dot products'
